@@ -58,3 +58,10 @@ CASES += [
     dict(id='c07-orig-subgroup-read-mode', prop='C07', file='src/library/prog_args/handler.cpp', expect='R6',
          old="      subArgHandler->mReadMode = mReadMode;\n", new=""),
 ]
+
+CASES += [
+    dict(id='c07-ctor-drops-last-word', prop='C07', file=A, expect='R2',
+         old="   splitString( arguments, cmdLine);\n", new="   splitString( arguments, cmdLine);\n   if (arguments.size() > 1)\n      arguments.pop_back();\n"),
+    dict(id='c07-eq-ctor-size-in-local', prop='C07', file=A, expect=None,
+         old="   mpArgV = new char*[ arguments.size() + 1];", new="   auto const  num_words = arguments.size();\n   mpArgV = new char*[ num_words + 1];"),
+]
